@@ -131,7 +131,7 @@ def make_dict_unstructure_fn_from_attrs(
                         t = typevar_map[t.__name__]
                     else:
                         handler = converter.unstructure
-                elif is_generic(t) and not is_bare(t) and not is_annotated(t):
+                elif is_generic(t) and not is_bare(t):
                     t = deep_copy_with(t, typevar_map, cl)
 
                 if handler is None:
@@ -375,7 +375,7 @@ def make_dict_structure_fn_from_attrs(
             t = a.type
             if isinstance(t, TypeVar):
                 t = typevar_map.get(t.__name__, t)
-            elif is_generic(t) and not is_bare(t) and not is_annotated(t):
+            elif is_generic(t) and not is_bare(t):
                 t = deep_copy_with(t, typevar_map, cl)
 
             # For each attribute, we try resolving the type here and now.
@@ -511,7 +511,7 @@ def make_dict_structure_fn_from_attrs(
             t = a.type
             if isinstance(t, TypeVar):
                 t = typevar_map.get(t.__name__, t)
-            elif is_generic(t) and not is_bare(t) and not is_annotated(t):
+            elif is_generic(t) and not is_bare(t):
                 t = deep_copy_with(t, typevar_map, cl)
 
             # For each attribute, we try resolving the type here and now.
@@ -581,7 +581,7 @@ def make_dict_structure_fn_from_attrs(
                 t = a.type
                 if isinstance(t, TypeVar):
                     t = typevar_map.get(t.__name__, t)
-                elif is_generic(t) and not is_bare(t) and not is_annotated(t):
+                elif is_generic(t) and not is_bare(t):
                     t = deep_copy_with(t, typevar_map, cl)
 
                 # For each attribute, we try resolving the type here and now.
